@@ -59,6 +59,9 @@ def set_dimensions(poly: PolyLike, dimensions: Optional[int] = None) -> ndpoly:
         exponents = poly.exponents[:, :dimensions]
         exponents = exponents[indices]
         coefficients = [coeff for coeff, idx in zip(poly.coefficients, indices) if idx]
+        if not coefficients:
+            exponents = numpy.zeros((1, dimensions), dtype="uint32")
+            coefficients = [numpy.zeros(poly.shape, dtype=poly.dtype)]
         names = poly.names[:dimensions]
 
     else:
